@@ -38,7 +38,9 @@ def handlePeaks (op : String) (args : List String) : Option String :=
       let thr : Nat → Int × Rat := fun p => if ta.size = 1 then ta.getD 0 (0, 0) else ta.getD p (0, 0)
       let thrNan : Nat → Bool := fun p => (if tl.length = 1 then tl.getD 0 V.nan else tl.getD p V.nan) == V.nan
       let c : Cfg := ⟨ny, nx, offs, by_, bx⟩
-      let mask : Nat → Bool := fun p => mask2 (p / nx) (p % nx) || thrNan p
+      -- NaN data pixels take the minimum value for the neighbourhood test but are themselves never peaks (defect F57)
+      let dataNan : Nat → Bool := fun p => dl.getD p V.nan == V.nan
+      let mask : Nat → Bool := fun p => mask2 (p / nx) (p % nx) || thrNan p || dataNan p
       some (match findPeaks c d mn thr mask np with
         | none => "none"
         | some ps => "ok " ++ joinSp (ps.map toString))
